@@ -343,9 +343,15 @@ func (ai *aliasInfo) contentWritesIn(fn *ssa.Function) []ContentWrite {
 					continue
 				}
 				if callee != nil {
-					switch callee.String() {
+					name := callee.String()
+					if i := strings.Index(name, "["); i >= 0 {
+						name = name[:i]
+					}
+					switch name {
 					case "sort.SliceStable", "sort.Slice", "sort.Sort", "sort.Stable", "slices.Sort", "slices.SortFunc", "slices.SortStableFunc", "slices.Reverse":
 						out = append(out, ContentWrite{x, cc.Args[0], "call " + callee.String() + " sorts in place"})
+					case "maps.Copy", "maps.DeleteFunc", "maps.Insert":
+						out = append(out, ContentWrite{x, cc.Args[0], "call " + name + " writes its first argument"})
 					}
 					continue
 				}
